@@ -1,7 +1,7 @@
 (* Entry.v — single extracted entry point [run]: request = VList [VStr name; arg].
    All marshalling is done here in Gallina so that ocaml/driver.ml stays generic. *)
 From Coq Require Import ZArith List Bool String Ascii.
-From Verif Require Import PyStr Normalize NormalizeGen Util UtilGen Toc TocGen Footnote FootnoteGen Cli CliGen StoreGen Rx UnicodeGen RxGen Scanner RefLinks Tmpl HtmlRender TmplGen CodeSpan RxSub.
+From Verif Require Import PyStr Normalize NormalizeGen Util UtilGen Toc TocGen Footnote FootnoteGen Cli CliGen StoreGen Rx UnicodeGen RxGen Scanner RefLinks Tmpl HtmlRender TmplGen CodeSpan RxSub RxCost Inline InlineGen.
 Import ListNotations.
 Open Scope Z_scope.
 
@@ -45,6 +45,67 @@ Fixpoint find_template (nm : str) (l : list (template * list pkind * list (nat *
   match l with
   | [] => None
   | (t, _, _) :: l' => if str_eqb nm (t_name t) then Some t else find_template nm l'
+  end.
+
+(* ---- inline parser instance ---- *)
+Definition irule_of_name (n : str) : option irule :=
+  if is_name n "escape" then Some IEscape else if is_name n "codespan" then Some ICodespan
+  else if is_name n "emphasis" then Some IEmphasis else if is_name n "link" then Some ILink
+  else if is_name n "auto_link" then Some IAutoLink else if is_name n "auto_email" then Some IAutoEmail
+  else if is_name n "inline_html" then Some IInlineHtml else if is_name n "linebreak" then Some ILinebreak
+  else if is_name n "softbreak" then Some ISoftbreak else None.
+
+Definition inline_spec (hard : bool) (r : irule) : rx :=
+  match r with
+  | IEscape => rx_inline__escape | ICodespan => rx_inline__codespan | IEmphasis => rx_inline__emphasis
+  | ILink => rx_inline__link | IAutoLink => rx_inline__auto_link | IAutoEmail => rx_inline__auto_email
+  | IInlineHtml => rx_inline__inline_html
+  | ILinebreak => if hard then rx_inline__HARD_LINEBREAK else rx_inline__linebreak
+  | ISoftbreak => rx_inline__softbreak
+  | IPrecAutoLink => rx_inline__prec_auto_link | IPrecInlineHtml => rx_inline__prec_inline_html
+  end.
+
+Definition emph_end (marker : str) : option rx :=
+  if is_name marker "*" then Some rx_inline_parser__EMPHASIS_END_RE_s
+  else if is_name marker "_" then Some rx_inline_parser__EMPHASIS_END_RE_u
+  else if is_name marker "**" then Some rx_inline_parser__EMPHASIS_END_RE_ss
+  else if is_name marker "__" then Some rx_inline_parser__EMPHASIS_END_RE_uu
+  else if is_name marker "***" then Some rx_inline_parser__EMPHASIS_END_RE_sss
+  else if is_name marker "___" then Some rx_inline_parser__EMPHASIS_END_RE_uuu
+  else None.
+
+Definition inline_cfg (hard_wrap : bool) (refs : list (str * (str * option str))) : option icfg :=
+  let names := if hard_wrap then inline_rules_hw else inline_rules_std in
+  match opt_all (map irule_of_name names) with
+  | None => None
+  | Some rules =>
+    Some {| c_uni := U;
+            c_spec := inline_spec (if hard_wrap then inline_linebreak_is_hard_hw else inline_linebreak_is_hard_std);
+            c_rules := rules;
+            c_square := rx_helpers__INLINE_SQUARE_BRACKET_RE; c_label := rx_helpers__INLINE_LINK_LABEL_RE;
+            c_bracket_start := rx_helpers__LINK_BRACKET_START; c_bracket := rx_helpers__LINK_BRACKET_RE;
+            c_href_inline := rx_helpers__LINK_HREF_INLINE_RE; c_title := rx_helpers__LINK_TITLE_RE;
+            c_paren_end := rx_helpers__PAREN_END_RE; c_escape_char := rx_helpers__ESCAPE_CHAR_RE;
+            c_emph_end := emph_end;
+            c_escape_url := escape_url T escape_url_safe;
+            c_unikey := run_unikey T unikey_ops;
+            c_codespan_text := codespan_text T;
+            c_refs := refs |}
+  end.
+
+Fixpoint enc_tok (t : tok) : pval :=
+  match t with
+  | TText r => VList [VStr (z_of_string "text"); VStr r]
+  | TCodespan r => VList [VStr (z_of_string "codespan"); VStr r]
+  | TInlineHtml r => VList [VStr (z_of_string "inline_html"); VStr r]
+  | TLinebreak => VList [VStr (z_of_string "linebreak")]
+  | TSoftbreak => VList [VStr (z_of_string "softbreak")]
+  | TEmphasis ch => VList [VStr (z_of_string "emphasis"); VList (map enc_tok ch)]
+  | TStrong ch => VList [VStr (z_of_string "strong"); VList (map enc_tok ch)]
+  | TLink img ch url title tk ref =>
+    VList [VStr (z_of_string (if img then "image" else "link")); VList (map enc_tok ch); VStr url;
+           match title with Some t => VStr t | None => VNone end; VBool tk;
+           match ref with Some (k, l) => VList [VStr k; VStr l] | None => VNone end]
   end.
 
 Definition run_named (name : str) (arg : pval) : pval :=
@@ -177,6 +238,30 @@ Definition run_named (name : str) (arg : pval) : pval :=
                else if (kind =? 1)%Z then RGroupThen (Z.to_nat g) lit
                else RGroupPad (Z.to_nat g) (Z.to_nat width) in
       match r with Some r => VStr (re_sub U r (rep_of k) s) | None => VErr "no such pattern" end
+    | _ => VErr "arg" end
+  else if is_name name "rx_cost" then
+    match arg with
+    | VList [VStr pname; VStr s; VInt pos] =>
+      match assoc_rx pname rx_table with
+      | None => VErr "no such pattern"
+      | Some r => let res := re_search_cost U r s (Z.to_nat pos) in VList [enc_match (fst res); vnat (snd res)]
+      end
+    | _ => VErr "arg" end
+  else if is_name name "inline" then
+    match arg with
+    | VList [VStr s; VBool hw; VList refs] =>
+      let rl := flat_map (fun v => match v with
+                                   | VList [VStr k; VStr u; VStr t] => [(k, (u, Some t))]
+                                   | VList [VStr k; VStr u; VNone] => [(k, (u, None))]
+                                   | _ => [] end) refs in
+      match inline_cfg hw rl with
+      | None => VErr "unknown inline rule"
+      | Some C => match inline_parse C s with
+                  | Ok toks => VList (map enc_tok toks)
+                  | Exn => VErr "exception"
+                  | Fuel => VErr "fuel"
+                  end
+      end
     | _ => VErr "arg" end
   else if is_name name "replace" then
     match arg with
